@@ -51,7 +51,7 @@ def run(ctx):
     by_key = {}
     for name, line in viols:
         by_key.setdefault(key_for(name, line), (name, line))
-    for key, (name, line) in sorted(by_key.items()):
+    for key, (name, line) in sorted(vlib.limit_new(by_key, "C15").items()):
         # the whole grid is deterministic: confirmation = regenerate in fresh processes and look for the same key
         ctx.violation(key, f"{name} fails for {line['src']}: contact value {line['cval']!r}, query value {line['qval']!r}, results {json.dumps(line['r'])}", dict(pred=name, line=line))
     if by_key:
